@@ -30,6 +30,12 @@ escape clauses: ``c04.escape_verbatim`` render(escape(s)) has plain == s and no 
 in a backslash, every "[" in s is closed by a later "]" within s); the template itself is interpreted by the
 reference with s replaced by opaque placeholder characters.
 
+Links: a tag is a style definition, so a link may be written inside the tag text ("[link URL]", "[bold link URL]") as
+well as "[link=URL]".  The URL is data: every character must carry exactly the URL written in the tag (case
+included), and two link tags name the same style only when their URLs are equal.  These inputs come from the
+link-token enumeration (LINK_TOKEN_ALPHABET), the generator names LU / LL / BLU / ULQ and mixed-case LINK_URLS; they
+are judged by the same clauses (tag_regions / tag_order / rendered_style / error_iff).
+
 Random documents come from a generator that knows the intended structure (keyword-built styles per tag instance);
 generator-known expectation vs. reference interpreter is a self-check of this file (``c04.internal``).
 """
@@ -469,9 +475,29 @@ _CHAR_FULL = re.compile(r"(?:bold|red|[\[\]\\/=#ab1 \n:])*\Z")
 TOKEN_ALPHABET = ["[red]", "[blue]", "[bold]", "[/]", "[/red]", "[/blue]", "x", "\\", "\n", "[not bold]", "[/bold]", "[b]"]
 TOKEN_ALPHABET_QUICK = TOKEN_ALPHABET[:9]
 
+# A tag is a style definition, and "link URL" is a style definition: the link may be written inside the tag text
+# ("[link URL]", "[bold link URL]") as well as in the "[link=URL]" spelling.  The URL is data, not a style word:
+# the character must carry exactly the URL of the tag (case included), and two link tags name the same style only
+# when their URLs are equal.  U / u differ only in case.
+LINK_U = "Http://A/b"
+LINK_u = "http://a/b"
+LINK_TOKEN_ALPHABET = [
+    "[link %s]" % LINK_U,
+    "[link %s]" % LINK_u,
+    "[bold link %s]" % LINK_U,
+    "[/link %s]" % LINK_U,
+    "[/link %s]" % LINK_u,
+    "[/]",
+    "x",
+    "[link=%s]" % LINK_U,
+    "[/link]",
+    "[/link %s bold]" % LINK_U,
+]
+
 RANDOM_SYMBOLS = (
     ["[", "]", "[", "]", "[/", "[/]", "\\", "\\\\", "/", "=", "#", "a", "b", "1", " ", "\n", ":", "B", "x"]
     + ["bold", "red", "blue", "not", "on", "link", "italic", "u", "i", "#ff0000", "color(", ")", "dim"]
+    + ["[link ", "[/link ", "Http://A/b", "http://a/b"]
 )
 
 
@@ -507,8 +533,30 @@ NAMES = {
     "FOO": (["foo", "fOO"], ["foo", "FOO", " foo "], {}),
     "A": (["a"], ["a", "A"], {}),
     "LINK": (["link"], ["link", "LINK", " link"], None),  # needs a parameter
+    # links written as a style definition inside the tag text; the URL is carried verbatim (mixed case), and a
+    # URL that differs only in case is a different style, hence a different name (LU vs LL)
+    "LU": (
+        ["link https://Example.com/Docs/README.md", "lINK https://Example.com/Docs/README.md", "link  https://Example.com/Docs/README.md"],
+        ["link https://Example.com/Docs/README.md", "LINK https://Example.com/Docs/README.md", " link https://Example.com/Docs/README.md "],
+        {"link": "https://Example.com/Docs/README.md"},
+    ),
+    "LL": (
+        ["link https://example.com/docs/readme.md"],
+        ["link https://example.com/docs/readme.md", "Link https://example.com/docs/readme.md"],
+        {"link": "https://example.com/docs/readme.md"},
+    ),
+    "BLU": (
+        ["bold link Http://A/b", "link Http://A/b bold", "b link Http://A/b"],
+        ["bold link Http://A/b", "link Http://A/b b", "BOLD link Http://A/b"],
+        {"bold": True, "link": "Http://A/b"},
+    ),
+    "ULQ": (
+        ["underline link ftp://Host/Path?Q#Frag"],
+        ["underline link ftp://Host/Path?Q#Frag", "link ftp://Host/Path?Q#Frag u"],
+        {"underline": True, "link": "ftp://Host/Path?Q#Frag"},
+    ),
 }
-LINK_URLS = ["http://a", "https://example.org/x?y=1", "b"]
+LINK_URLS = ["http://a", "https://example.org/x?y=1", "b", "https://Example.com/Docs/README.md"]
 
 LEAVES = [
     ("x", "x"),
@@ -653,17 +701,19 @@ def _work(job):
     res = _new_result()
     counts = res["clauses"]
     ntpl = len(TEMPLATES)
-    if kind in ("chars", "tokens"):
+    if kind in ("chars", "tokens", "ltokens"):
         _, length, lo, hi, max_len, n_tokens = job
-        alphabet = CHAR_ALPHABET if kind == "chars" else TOKEN_ALPHABET[:n_tokens]
+        alphabet = CHAR_ALPHABET if kind == "chars" else TOKEN_ALPHABET[:n_tokens] if kind == "tokens" else LINK_TOKEN_ALPHABET
         for index in range(lo, hi):
             s = _decode(index, length, alphabet)
             if kind == "tokens" and _in_char_space(s, max_len):
                 continue  # already enumerated in the character space: keep cases distinct
+            if kind == "ltokens" and "link" not in s:
+                continue  # only "[/]" and "x": already enumerated in the token space
             res["evaluations"] += 1
             if "[" in s:
                 res["nontrivial"] += 1
-            f = check_markup(s, counts)
+            f = check_markup(s, counts, deep=(kind == "ltokens"))
             # embedding is only interesting when s contains something escape() could have to act on
             templates = (0, 1 + index % (ntpl - 1)) if ("[" in s or "\\" in s) else ()
             f += check_escape(s, counts, templates)
@@ -728,6 +778,11 @@ def _jobs(tier: str, seed: int):
             step = chunk if kind == "chars" else chunk // 3
             for lo in range(0, total, step):
                 jobs.append((kind, length, lo, min(total, lo + step), max_len, len(alphabet)))
+    link_len = 4 if quick else 5
+    for length in range(0, link_len + 1):
+        total = len(LINK_TOKEN_ALPHABET) ** length
+        for lo in range(0, total, chunk // 3):
+            jobs.append(("ltokens", length, lo, min(total, lo + chunk // 3), max_len, len(LINK_TOKEN_ALPHABET)))
     n_random = 24000 if quick else 200000
     n_trees = 24000 if quick else 200000
     per = 2000
@@ -735,12 +790,12 @@ def _jobs(tier: str, seed: int):
         jobs.append(("random", seed * 1000003 + i, per, max_len + 1))
     for i in range(n_trees // per):
         jobs.append(("trees", seed * 1000003 + 500000 + i, per))
-    return jobs, max_len, n_random, n_trees
+    return jobs, max_len, n_random, n_trees, link_len
 
 
 def run(tier: str, seed: int) -> dict:
     t0 = time.time()
-    jobs, max_len, n_random, n_trees = _jobs(tier, seed)
+    jobs, max_len, n_random, n_trees, link_len = _jobs(tier, seed)
     procs = max(1, min(16, os.cpu_count() or 1))
     total = _new_result()
     if procs > 1:
@@ -793,12 +848,14 @@ def run(tier: str, seed: int) -> dict:
         "evaluations": total["evaluations"],
         "distinct_nontrivial": distinct,
         "rule": "markup strings: (1) every concatenation of <= L symbols of the character alphabet, (2) every concatenation of <= L "
-        "tokens of the tag-token alphabet that is not already in (1), (3) random concatenations of syntax symbols, length "
+        "tokens of the tag-token alphabet that is not already in (1), (2b) every concatenation of <= LL tokens of the link-token "
+        "alphabet (links written as style definitions inside the tag text, URLs differing only in case) that contains a link "
+        "tag, (3) random concatenations of syntax symbols, length "
         "L+1..40 characters, (4) documents emitted by a random walk over open / text leaf / close-by-name / [/] / bad close "
         "with aliased spellings and overlapping closes; each string is also used as the argument s of escape(). A case is "
-        "non-trivial when the string contains '['; (1),(2) are distinct by construction, (3),(4) are counted by distinct hash.",
-        "bound": "L=%d; character alphabet %r (%d symbols); token alphabet %r; %d random strings <= 40 chars; %d generated documents "
-        "<= 14 steps; %d embedding templates; emoji=False; empty theme" % (max_len, CHAR_ALPHABET, len(CHAR_ALPHABET), TOKEN_ALPHABET_QUICK if tier == "quick" else TOKEN_ALPHABET, n_random, n_trees, len(TEMPLATES)),
+        "non-trivial when the string contains '['; (1),(2),(2b) are distinct by construction, (3),(4) are counted by distinct hash.",
+        "bound": "L=%d; character alphabet %r (%d symbols); token alphabet %r; LL=%d, link-token alphabet %r; %d random strings <= 40 chars; %d generated documents "
+        "<= 14 steps; %d embedding templates; emoji=False; empty theme" % (max_len, CHAR_ALPHABET, len(CHAR_ALPHABET), TOKEN_ALPHABET_QUICK if tier == "quick" else TOKEN_ALPHABET, link_len, LINK_TOKEN_ALPHABET, n_random, n_trees, len(TEMPLATES)),
         "samples": total["samples"],
         "clauses": dict(sorted(total["clauses"].items())),
         "failures": failures,
